@@ -219,12 +219,31 @@ func TestC08(t *testing.T) {
 				sig := limitKindNames[kind] + ":more-latency-more-limit"
 				if kind == 1 && pa.EstF > float64(la.MaxL) {
 					sig += ":estimate-above-max" // known finding F18
+				} else if kind == 1 && pa.EstF == float64(la.MaxL) && ob.Est == pa.Est && oa.Est == pa.Est-1 {
+					// known finding F24: the stored estimate equals the maximum exactly; the increase branch clamps to the maximum and the smoothing
+					// (1-s)*max + s*max rounds below it - the lower RTT reports max-1, the higher RTT (no change) reports max
+					sig += ":estimate-at-ceiling"
 				}
 				ca.violate(sig, fmt.Sprintf("same history, same in-flight %d and drop=%v: RTT %d gives estimate %d, the higher RTT %d gives %d (estimate before %v, baseline %d)", inf, drop, lo, oa.Est, hi, ob.Est, pa.EstF, pa.NoLoad))
 			}
 			if ci == 0 {
 				rep.Sample(map[string]interface{}{"limit": limitKindNames[kind], "cfg": la.Cfg.Ints(), "prefix_len": len(prefix), "rtt_low": lo, "rtt_high": hi, "inflight": inf, "drop": drop, "est_low": oa.Est, "est_high": ob.Est})
 			}
+		}
+	}
+	// replay of known finding F24 (witness of C08_vegas_refuted_at_ceiling): estimate = maximum = 12, smoothing 0.3
+	{
+		mk := func() *LUT {
+			rand.Seed(7)
+			l, _ := NewLUT(LimitCfg{Kind: 1, P: []int64{12, 12, 1 << 20, FBits(0.3)}})
+			l.OnSample(0, 1_000_000, 12, false) // baseline
+			return l
+		}
+		a, b := mk(), mk()
+		oa := a.OnSample(1, 1_000_000, 12, false)
+		ob := b.OnSample(1, 1_600_000, 12, false)
+		if ob.Est > oa.Est {
+			rep.KnownStillFails("vegas:more-latency-more-limit:estimate-at-ceiling", fmt.Sprintf("Vegas with estimate = maximum = 12 and smoothing 0.3: RTT = baseline gives %d (0.7*12 + 0.3*12 rounds below 12), a higher RTT gives %d", oa.Est, ob.Est), nil)
 		}
 	}
 	// replay of known finding F18
